@@ -825,7 +825,7 @@ func (e *c16Env) block(no int, cfg *c16Config, rq *c16Request) *c16Block {
 	b.Base = e.run(b.Px, cfg, rq, nil, gen)
 	b.BaseStr = b.Base.str()
 	if again := e.run(b.Px, cfg, rq, nil, gen); again.str() != b.BaseStr {
-		c.Error("config %s request %s: the baseline is not reproducible on an identically seeded world: %s vs %s", cfg.Name, rq.Name, b.BaseStr, again.str())
+		c.Unstable("config %s request %s: the baseline is not reproducible on an identically seeded world: %s vs %s", cfg.Name, rq.Name, b.BaseStr, again.str())
 	}
 	if cls := b.Base.class(); cls != rq.Class {
 		c.Error("fixture: config %s request %s: baseline class %q, the documentation prescribes %q (%s)", cfg.Name, rq.Name, cls, rq.Class, b.BaseStr)
